@@ -63,6 +63,11 @@ class Sched:
         mode = strategy[0]
         self.mode = mode
         self.p = strategy[1] if mode == 'rw' else 0.0
+        # ('labels', {label: probability}, default): like 'rw', with the probability of a preemption depending on the kind
+        # of the yield point ('thread.start', 'event.set', 'acquire', ...): directs runs at races around these operations
+        self.label_p = dict(strategy[1]) if mode == 'labels' else {}
+        if mode == 'labels':
+            self.p = strategy[2] if len(strategy) > 2 else 0.0
         self.prefix = dict(strategy[1]) if mode == 'prefix' else {}
         if mode == 'pct':
             d, n = strategy[1], strategy[2]
@@ -89,7 +94,7 @@ class Sched:
     def _ready(self):
         return [t for t in self.threads if t.state == 'ready']
 
-    def _pick(self, cur_ok):
+    def _pick(self, cur_ok, label=None):
         """choose the thread to run next; cur_ok: the current thread could continue"""
         ready = self._ready()
         cur = self.current
@@ -127,9 +132,11 @@ class Sched:
                     return cur
                 if self.mode == 'rw' and self.rng.random() < self.p:
                     return self.rng.choice([t for t in ready if t is not cur])
+                if self.mode == 'labels' and self.rng.random() < self.label_p.get(label, self.p):
+                    return self.rng.choice([t for t in ready if t is not cur])
             return cur
         # the current thread can not continue
-        if self.mode == 'rw':
+        if self.mode in ('rw', 'labels'):
             return self.rng.choice(ready)
         if self.block_order == 'max':
             return max(ready, key=lambda t: t.ident_)
@@ -160,7 +167,7 @@ class Sched:
             self._finish('horizon')
             me._go.acquire()
             raise SchedAbort()
-        nxt = self._pick(True)
+        nxt = self._pick(True, label)
         if nxt is not me and nxt is not None:
             self.npreempt += 1
             self._transfer(me, nxt)
